@@ -315,7 +315,7 @@ func (r *LayerManager) release(ctx context.Context, refspec reference.Spec, tocD
 	i := r.refcounter[refspec.String()][tocDigest.String()]
 	if i <= 0 {
 		// No reference to this layer. release it.
-		delete(r.refcounter, tocDigest.String())
+		delete(r.refcounter[refspec.String()], tocDigest.String())
 		if len(r.refcounter[refspec.String()]) == 0 {
 			delete(r.refcounter, refspec.String())
 			delete(r.resolveLayerCache, refspec.String()) // no reference to this image. So reset the resolve status as well.
